@@ -2,7 +2,7 @@
    property theorems, refutation witnesses, non-vacuity examples, Print Assumptions. *)
 From Coq Require Import List ZArith Bool.
 From Model Require Import Orm.
-From Proofs Require Import OrmSpec OrmInvRun OrmInvC05 OrmInvDirect OrmInvCex.
+From Proofs Require Import OrmSpec OrmInvRun OrmInvC05 OrmInvDirect OrmInvCex OrmInvFaults.
 Import ListNotations.
 Open Scope Z_scope.
 
@@ -81,6 +81,15 @@ Theorem C05_expire_always_refreshes :
     end.
 Proof. exact C05_expire_always_refreshes_proof. Qed.
 
+(* The coherence theorem also for histories in which any operation may run with a database error injected at any
+   statement index (`guard05f` = guard05 through one OFault wrapper). *)
+Theorem C05_coherent_with_faults :
+  forall (cfg : config) (ops : list op) (o : nat),
+    forallb guard05f ops = true -> forallb read_ok_f ops = true ->
+    let s := run cfg ops in
+    held s o -> current s o -> cache_values (i_k (get_inst s o)) = true -> shows_row s o.
+Proof. exact C05_coherent_faults_proof. Qed.
+
 (* ------------------------------------------------------------------ what is FALSE of the code (open findings) *)
 Definition cfgT : config := {| doCache := true; cullFreq := 100; cullFrac := 2 |}.
 
@@ -111,3 +120,4 @@ Print Assumptions C05_read.
 Print Assumptions C05_sync_refreshes.
 Print Assumptions C05_expire_then_read.
 Print Assumptions C05_expire_always_refreshes.
+Print Assumptions C05_coherent_with_faults.
